@@ -3,7 +3,7 @@ richer alphabet than the TLC model (names, bodies, header lists, environment
 events), steered by per-property profiles.  Deterministic in the seed."""
 import random
 
-from . import gamma
+from . import gamma, icsgen
 from .davdriver import DavSession, SLOTS
 
 ICS_NAMES = ["a.ics", "b.ics", "c.ics", "d e.ics", "E.ICS.ics"]
@@ -40,18 +40,19 @@ DEFAULT_PROFILE = {
     "fault": 0.0,      # probability that a PUT/DELETE runs with an injected ENOSPC
     "cond": 0.35,      # probability that a PUT/DELETE carries a conditional header
     "invalid": 0.12,   # probability that a PUT body is from an invalid class
+    "grammar": 0.25,   # probability that a valid body comes from the grammar-based generator
     "len": 24,
 }
 
 PROFILES = {
     "C01": {},
-    "C02": {"put": 40, "reupload": 8, "proppatch": 8, "restart": 5},
+    "C02": {"put": 40, "reupload": 8, "proppatch": 8, "restart": 5, "grammar": 0.4},
     "C03": {"cond": 0.85, "get": 12, "put": 40, "delete": 16},
     "C06": {"put": 45, "delete": 14, "restart": 6, "post": 8, "uidheavy": True},
     "C07": {"delete": 18, "put": 34, "delcoll": 3, "mk": 5, "reupload": 6},
     "C08": {"proppatch": 12, "delete": 14, "reupload": 8, "restart": 5},
     "C09": {"proppatch": 12, "lock": 6, "reupload": 8, "delete": 12},
-    "C14": {"invalid": 0.4, "reupload": 14, "put": 40},
+    "C14": {"invalid": 0.3, "reupload": 16, "put": 40, "grammar": 0.65},
     "C15": {"proppatch": 45, "restart": 8, "mk": 6, "delcoll": 3, "put": 12, "propheavy": True},
     "C16": {"mk": 8, "delcoll": 5, "post": 10},
     "C17": {"multiget": 22, "delete": 12},
@@ -159,6 +160,12 @@ def run_random_session(seed, prof, frontend="wsgi", prefix="/", backend="tree", 
                 n = rng.choice(names)
                 if rng.random() < prof["invalid"]:
                     data, valid = rng.choice(INVALID_VCF if usevcf else INVALID_ICS), False
+                elif rng.random() < prof["grammar"]:
+                    # generated object; UIDs from the shared pool so that conflicts still occur
+                    # mostly one UID per name (so overwrites succeed), sometimes a pooled UID (conflicts)
+                    guid = ("gen-" + n) if rng.random() < 0.75 else rng.choice(UIDS[:3])
+                    data = icsgen.gen_vcard(rng) if usevcf else icsgen.gen_ics(rng, guid)
+                    valid = True
                 else:
                     data, valid = rng.choice(vcf if usevcf else ics)
                 im = inm = None
